@@ -25,10 +25,45 @@ Proof. intros HF. induction l as [|n r IH]; intros g W; simpl; [exact W|]. apply
 
 Theorem implicit_hydrogen_gwf (g : gr) (l : list Z) : gwf g -> gwf (implicit_hydrogen g l).
 Proof.
-  intros W. unfold implicit_hydrogen. apply gwf_fold_remove.
+  intros W. unfold implicit_hydrogen, imph_counts. cbv beta iota zeta. apply gwf_fold_remove.
   apply gwf_fold_set.
   - intros G h WG. apply gwf_fold_set; [|exact WG]. intros G' nb WG'. destruct (is_H (copy g) nb); [exact WG'|apply gwf_set_node, WG'].
   - apply gwf_fold_set; [|apply gwf_copy, W]. intros G n WG. destruct (is_H (copy g) n); [exact WG|apply gwf_set_node, WG].
+Qed.
+
+(** ** repaired code 3ba7a77: a hydrogen all of whose neighbours are hydrogens (H2, H+, a lone H) is never removed, whatever the
+    preserve list *)
+Lemma fold_ids {A} (F : gr -> A -> gr) (l : list A) :
+  (forall g x, node_ids (F g x) = node_ids g) -> forall g : gr, node_ids (fold_left F l g) = node_ids g.
+Proof. intros HF. induction l as [|x r IH]; intros g; simpl; [reflexivity|]. rewrite IH. apply HF. Qed.
+Lemma has_node_fold_remove l : forall (G : gr) n, has_node (fold_left remove_node l G) n = negb (mem n l) && has_node G n.
+Proof.
+  induction l as [|x r IH]; intros G n; simpl; [reflexivity|]. rewrite IH, has_node_remove_node.
+  destruct (N.eqb_spec n x) as [->|]; simpl; [rewrite andb_false_r|]; reflexivity.
+Qed.
+Lemma imph_counts_ids (g : gr) (l : list Z) : node_ids (snd (fst (imph_counts g l))) = node_ids g.
+Proof.
+  unfold imph_counts. cbv beta iota zeta. simpl snd. simpl fst.
+  rewrite fold_ids.
+  - rewrite fold_ids; [reflexivity|]. intros G n. destruct (is_H (copy g) n); [reflexivity|apply node_ids_set_node].
+  - intros G h. apply fold_ids. intros G' nb. destruct (is_H (copy g) nb); [reflexivity|apply node_ids_set_node].
+Qed.
+Theorem implicit_hydrogen_keeps_bare (g : gr) (l : list Z) n : gwfb g = true ->
+  is_H g n = true -> (forall w, adj g n w <> None -> is_H g w = true) -> has_node (implicit_hydrogen g l) n = true.
+Proof.
+  intros Hw Hn Hall. pose proof (gwfb_gwf g Hw) as W.
+  assert (has_heavy_nbr (copy g) n = false) as HH.
+  { unfold has_heavy_nbr. destruct (existsb _ _) eqn:E; [|reflexivity]. exfalso. apply existsb_exists in E.
+    destruct E as (w & Hin & Hw'). apply negb_true_iff in Hw'.
+    rewrite in_nbrs_adj in Hin. rewrite adj_copy in Hin by exact W.
+    unfold is_H in Hw'. rewrite label_copy in Hw'. fold (is_H g w) in Hw'. rewrite (Hall w Hin) in Hw'. discriminate. }
+  unfold implicit_hydrogen. destruct (imph_counts g l) as [[g0 g2] pres] eqn:EC.
+  assert (g0 = copy g) as -> by (unfold imph_counts in EC; cbv beta iota zeta in EC; congruence).
+  rewrite has_node_fold_remove. apply andb_true_iff. split.
+  - apply negb_true_iff. destruct (mem n _) eqn:M; [|reflexivity]. apply mem_spec, filter_In in M. destruct M as [_ M].
+    rewrite HH, andb_false_r in M. discriminate.
+  - pose proof (imph_counts_ids g l) as I. rewrite EC in I. simpl in I. apply has_node_in. rewrite I. apply has_node_in.
+    unfold is_H in Hn. unfold has_node. destruct (label g n); [reflexivity|discriminate].
 Qed.
 
 Theorem implicit_hydrogen_reindex_spec (g : gr) (l : list Z) : gwfb g = true ->
@@ -64,9 +99,14 @@ Proof.
     rewrite (finv_f f (node_ids g1) Hnd Finj u Hu), (finv_f f (node_ids g1) Hnd Finj v Hv). reflexivity.
 Qed.
 
+Definition mka (el : string) (hc am : Z) : natt := NA (Some (s2l el)) (Some false) (Some hc) (Some 0) (Some am) None.
+Example implicit_hydrogen_keeps_bare_ex :
+  let h2 := LG [(1%N, mka "H" 0 1); (2%N, mka "H" 0 2)] [(1%N, 2%N, EA (Some (OS 2)) None)] in
+  gwfb h2 = true /\ node_ids (implicit_hydrogen h2 [7]) = [1%N; 2%N] /\ node_ids (implicit_hydrogen_old h2 [7]) = [].
+Proof. vm_compute. repeat split. Qed.
+
 (** non-vacuity: CH3-O-H with the hydrogen (map 3) written explicitly, ids 5, 7, 9: without a preserve list the hydrogen is
     folded into the oxygen and the two heavy atoms become 1, 2 with atom_map 1, 2; preserving map 3 keeps it as atom 3 *)
-Definition mka (el : string) (hc am : Z) : natt := NA (Some (s2l el)) (Some false) (Some hc) (Some 0) (Some am) None.
 Definition ex_meoh : gr :=
   LG [(5%N, mka "C" 3 1); (7%N, mka "O" 0 2); (9%N, mka "H" 0 3)] [(5%N, 7%N, EA (Some (OS 2)) None); (7%N, 9%N, EA (Some (OS 2)) None)].
 Example implicit_hydrogen_reindex_ex :
